@@ -63,7 +63,7 @@ func (in *Interp) newCrashModel(trace []fsEvent, power bool, tag string) *crashM
 		switch ev.Op {
 		case "fsync":
 			cm.fsyncs[ev.Ino] = append(cm.fsyncs[ev.Ino], i)
-		case "create", "mkdir", "symlink":
+		case "create", "mkdir", "symlink", "link":
 			cm.effects = append(cm.effects, &dirEffect{idx: i, dir: ev.Dir, name: nameKey(ev.Name), val: ev.Ino})
 		case "unlink":
 			cm.effects = append(cm.effects, &dirEffect{idx: i, dir: ev.Dir, name: nameKey(ev.Name), val: 0})
@@ -248,7 +248,7 @@ func (in *Interp) crashAnalyse(trace []fsEvent, baseID int, init map[string]int,
 			if n, ok := preexisting[ev.Ino]; ok && n != ".tmp" && (ev.Op == "truncate" || ev.N > 0) {
 				inPlace = ts.False
 			}
-		case "create", "mkdir", "unlink", "symlink":
+		case "create", "mkdir", "unlink", "symlink", "link":
 			if ev.Dir == baseID && !isTarget(nameKey(ev.Name)) && nameKey(ev.Name) != ".tmp" {
 				bystander = ts.False
 			}
